@@ -569,7 +569,7 @@ Proof. rewrite forallb_forall. intros H k v I. apply (H _ I). Qed.
 Lemma step_op_good st o : reg_okb (st_reg st) = true -> sinvb st = true -> clean st o = true ->
   good st (snd (step_op st o)).
 Proof.
-  intros R I C. destruct o as [s l|id s args|r id k v|id f g v|id k|id v|ko id s args|pid id|pid v]; simpl.
+  intros R I C. destruct o as [s l|id s args|r id k v|id f g v|id k|id v|ko id s args|pid id|pid v|s]; simpl.
   - (* Declare *)
     unfold declare. destruct (eval_fields _ l); simpl; apply good_set_reg; auto.
   - (* Construct *)
@@ -654,11 +654,13 @@ Proof.
     simpl in C. rewrite P, A, AJ in C. apply andb_prop in C as [E C].
     apply gen_eqb_eq in C. apply Nat.eqb_eq in E.
     eapply good_put_shape; eauto. eapply sinvb_lookup; eauto.
+  - (* DeclareBad *)
+    unfold declare_bad. simpl. apply good_set_reg; auto.
 Qed.
 
 Lemma step_op_reg st o : reg_okb (st_reg st) = true -> reg_okb (st_reg (snd (step_op st o))) = true.
 Proof.
-  intros R. destruct o as [s l|id s args|r id k v|id f g v|id k|id v|ko id s args|pid id|pid v]; simpl.
+  intros R. destruct o as [s l|id s args|r id k v|id f g v|id k|id v|ko id s args|pid id|pid v|s]; simpl.
   - unfold declare.
     assert (R1 : reg_okb (aset s {| re_gen := GPh (st_clock st); re_defn := Some [] |} (st_reg st)) = true)
       by (apply forallb_aset; auto).
@@ -690,6 +692,7 @@ Proof.
     destruct (alookup id (st_store st)) as [i|]; auto.
     destruct (negb (value_ok st v)); auto. destruct v; auto.
     destruct (alookup id0 (st_store st)) as [ij|]; auto. destruct (ptr_matches st s g ij); auto.
+  - unfold declare_bad. simpl. apply forallb_aset; auto.
 Qed.
 
 Theorem step_preserves_inv st o :
@@ -738,7 +741,7 @@ Theorem rejected_write_unchanged st o :
   clean st o = true -> fst (step st o) <> OK -> st_store (snd (step st o)) = st_store st.
 Proof.
   intros C. unfold step. destruct (step_op st o) as [oc st'] eqn:E. simpl. intros N.
-  destruct o as [s l|id s args|r id k v|id f g v|id k|id v|ko id s args|pid id|pid v]; simpl in E.
+  destruct o as [s l|id s args|r id k v|id f g v|id k|id v|ko id s args|pid id|pid v|s]; simpl in E.
   - unfold declare in E. destruct (eval_fields _ l); inversion E; subst; auto.
   - destruct (alookup s (st_reg st)) as [e|]; [|inversion E; subst; auto].
     destruct (negb (bound_entry e)); [inversion E; subst; auto|].
@@ -786,6 +789,7 @@ Proof.
     destruct v; try (inversion E; subst; auto; fail).
     destruct (alookup id0 (st_store st)) as [ij|]; [|inversion E; subst; auto].
     destruct (ptr_matches st s g ij); inversion E; subst; auto. congruence.
+  - unfold declare_bad in E. inversion E; subst; auto.
 Qed.
 
 (* ---------- an accepted write sets exactly that field of exactly that instance ---------- *)
